@@ -101,6 +101,16 @@ def selfcheck_lemmas(bound=40):
     for k in range(0, 400):
         assert lemma_pow2_mod61(k)
         n += 1
+    for x in range(0, 400):
+        for y in range(0, 25):
+            assert lemma_isqrt_unique(x, y)
+            n += 1
+    for a in range(-3, 30):
+        for b in range(-3, 30):
+            assert lemma_sq_mono(a, b) and lemma_sq_mono_lt(a, b) and lemma_sq_cancel(a, b)
+            assert a < 0 or b < 0 or lemma_pow2_le(a, b)
+            assert lemma_mul_eq2(a, b, a + 1, b - 1)
+            n += 4
     for a in range(-2, 60):
         assert lemma_cfix_nonneg(a)
         for b in range(0, a + 1):
@@ -262,3 +272,30 @@ def lemma_mul_eq2(a, b, c, d):
 
 
 HINT_LEMMAS += [lemma_mul_eq2]
+
+
+# ---------------------------------------------------------------- square roots
+from .spec import isqrt                                  # noqa: E402
+
+
+def lemma_isqrt_unique(x, y):
+    """y >= 0, y*y <= x < (y+1)*(y+1)  ->  y == isqrt(x)"""
+    return implies(y >= 0 and y * y <= x and x < (y + 1) * (y + 1), y == isqrt(x))
+
+
+def lemma_sq_mono(a, b):
+    """0 <= a <= b -> a*a <= b*b"""
+    return implies(0 <= a and a <= b, a * a <= b * b)
+
+
+def lemma_sq_mono_lt(a, b):
+    """0 <= a < b -> a*a < b*b"""
+    return implies(0 <= a and a < b, a * a < b * b)
+
+
+def lemma_sq_cancel(a, b):
+    """a, b >= 0, a*a == b*b -> a == b"""
+    return implies(0 <= a and 0 <= b and a * a == b * b, a == b)
+
+
+HINT_LEMMAS += [lemma_isqrt_unique, lemma_sq_mono, lemma_sq_mono_lt, lemma_sq_cancel]
